@@ -35,8 +35,16 @@ def run(res, tier, build_ok):
             datain[: len(data)] = data
             return (0, None) if st == "good" else (2, bytearray([0x70, 0, 5, 0, 0, 0, 0, 10, 0, 0, 0, 0, 0x21, 0, 0, 0, 0, 0]))
 
+        def italk(task, do, di):
+            # an iSCSI target moves at most the expected data transfer length the initiator announced, in the
+            # announced direction (1 = read, 2 = write): what the library announces is part of what reaches the target
+            n = task.xferlen
+            dout = bytes(do[:n]) if task.dir == 2 else b""
+            room = memoryview(di)[: (n if task.dir == 1 else 0)]
+            return talk(task.cdb, dout, room)
+
         sgio.BACKEND = lambda f, cdb, do, di: talk(cdb, do, di)
-        iscsi.BACKEND = lambda lun, task, do, di: talk(task.cdb, do, di)
+        iscsi.BACKEND = lambda lun, task, do, di: italk(task, do, di)
         for it in range(40 * scale):
             bs = rng.choice([1, 4, 512, 520, 4096])
             big = rng.random() < 0.35
@@ -192,9 +200,67 @@ def run(res, tier, build_ok):
                 if bad:
                     res.violation("c12 %s boundary" % hist[-1][0], bad, {"transport": kind, "blocksize": bs, "capacity": cap, "history": hist})
             dev.close()
+        # ---- single commands moving more than 16 MiB (24/25-bit edges of byte counts), both transports.  The list-based
+        #      Lean target cannot hold such payloads, so here it only decodes the CDB (Std.Target.addr, by byte position)
+        #      and the stand-in moves the payload itself: at most the announced length over iSCSI, the buffers over SG_IO.
+        store = {}
+
+        def bigtalk(cdb, dataout, room, bs):
+            r = tgt.ask("tgtaddr %s" % hx(cdb)).split(" ")
+            op, lba, tl = int(r[1]), int(r[2]), int(r[3])
+            if op in (0x2A, 0xAA, 0x8A):
+                if len(dataout) != tl * bs:
+                    return (2, bytearray([0x70, 0, 5, 0, 0, 0, 0, 10, 0, 0, 0, 0, 0x1A, 0, 0, 0, 0, 0]))
+                for i in range(tl):
+                    store[lba + i] = bytes(dataout[i * bs:(i + 1) * bs])
+            elif op in (0x28, 0xA8, 0x88):
+                data = b"".join(store.get(lba + i, bytes(bs)) for i in range(tl))[: len(room)]
+                room[: len(data)] = data
+            elif op == 0x12:
+                room[:5] = bytes([0, 0, 6, 2, 31])[: len(room)]
+            return (0, None)
+
+        bigplan = [(4096, 4097, 16, 16), (512, 32769, 12, 16)] if scale == 1 else [
+            (4096, 4097, 16, 16), (512, 32769, 12, 12), (4096, 4095, 16, 12), (4096, 4096, 12, 16), (65536, 513, 10, 10), (4096, 8193, 16, 16)]
+        for kind in ("sgio", "iscsi"):
+            for bs, tl, ww, rw in bigplan:
+                store.clear()
+                sgio.BACKEND = lambda f, cdb, do, di, bs=bs: bigtalk(cdb, do, memoryview(di), bs)
+                iscsi.BACKEND = lambda lun, task, do, di, bs=bs: bigtalk(
+                    task.cdb, bytes(do[:task.xferlen]) if task.dir == 2 else b"", memoryview(di)[: (task.xferlen if task.dir == 1 else 0)], bs)
+                if kind == "sgio":
+                    vos.mknod("/dev/sgt")
+                    dev = SCSIDevice("/dev/sgt", readwrite=True)
+                else:
+                    dev = ISCSIDevice("iscsi://h/iqn.t/0", "iqn.i")
+                fac = SCSI(dev, bs)
+                lba = rng.randint(0, 1 << 20)
+                pat = bytes(rng.getrandbits(8) for _ in range(251))
+                data = bytearray((pat * (bs * tl // 251 + 1))[: bs * tl])
+                data[-1] = (data[-1] | 1)
+                hist = [("write%d" % ww, lba, tl)]
+                bad = None
+                try:
+                    getattr(fac, "write%d" % ww)(lba, tl, data)
+                    hist.append(("read%d" % rw, lba, tl))
+                    cmd = getattr(fac, "read%d" % rw)(lba, tl)
+                    got = bytes(cmd.datain)
+                    if got != bytes(data):
+                        first = next((i for i in range(min(len(got), len(data))) if got[i] != data[i]), min(len(got), len(data)))
+                        bad = "read%d(lba=%d, tl=%d) of %d bytes after write%d differs from what was written from byte %d on" % (rw, lba, tl, bs * tl, ww, first)
+                except Exception as e:
+                    bad = "%s raised %s: %s" % (hist[-1][0], type(e).__name__, str(e)[:80])
+                res.case((kind, "big", bs, tl, ww, rw), {"transport": kind, "blocksize": bs, "history": hist, "bytes": bs * tl})
+                res.count("single commands moving > 15 MiB")
+                if bad:
+                    res.violation("c12 %s large transfer" % hist[-1][0], bad, {"transport": kind, "blocksize": bs, "history": hist, "bytes": bs * tl})
+                dev.close()
+                del data
+        store.clear()
     finally:
         tgt.close()
         sgio.BACKEND = None
         iscsi.BACKEND = None
     res.assumptions += ["the target is the conformant Lean target Std.Target (decoding by byte position); real devices and the real bindings are outside the model",
+                        "commands moving more than 16 MiB: the Lean target only decodes the CDB (Std.Target.addr); the payload is moved by the stand-in (at most the announced expected transfer length over iSCSI)",
                         "transfers stay within the target's capacity and payloads have length transfer-length x block-size (the property's domain)"]
